@@ -7,6 +7,7 @@ mod engine;
 mod lq;
 mod rv;
 mod gen;
+mod cal;
 mod ast;
 mod astgen;
 mod interp;
@@ -25,6 +26,17 @@ fn main() {
         usage();
     }
     match args[1].as_str() {
+        "cal-dump" => {
+            // development aid: dump calendar fields for cross-validation against Python datetime
+            let step: i64 = args.get(2).and_then(|s| s.parse().ok()).unwrap_or(37);
+            let mut d = cal::days_from_civil(1, 1, 1);
+            let end = cal::days_from_civil(9999, 12, 31);
+            while d <= end {
+                let f = cal::fields(d * 86400, 0, 0);
+                println!("{} {} {} {} {} {} {} {} {}", f.year, f.month, f.day, f.wday, f.ordinal, f.week_sun, f.week_mon, f.iso_year, f.iso_week);
+                d += step;
+            }
+        }
         "list" => {
             for (id, _) in props::ALL {
                 println!("{id}");
